@@ -1,7 +1,7 @@
 """run a list of cases under one configuration"""
 import os, sys, time, json, subprocess, multiprocessing as mp, struct, math, shutil
 from fractions import Fraction
-from . import build, runner
+from . import build, runner, proc
 from .case import *
 from .runner import Native, model_inputs
 
@@ -150,11 +150,11 @@ def run_batch(tag, cases, cfg, opts=None, extra_prelude=''):
     drv = os.path.join(d, 'drv.cpp'); exe = os.path.join(d, 'drv')
     open(drv, 'w').write(runner.tu_source(good, extra_prelude) + runner.driver_source(good))
     ncmd = ['clang++-14'] + cfg.flags() + ['-o', exe, drv]
-    nproc = subprocess.Popen(ncmd, stdout=subprocess.PIPE, stderr=subprocess.PIPE, text=True)
+    nproc = proc.Bg(ncmd)
     gproc = None
     if opts.get('gxx'):
         gcmd = ['g++'] + cfg.flags() + ['-o', exe + '_gxx', drv]
-        gproc = subprocess.Popen(gcmd, stdout=subprocess.PIPE, stderr=subprocess.PIPE, text=True)
+        gproc = proc.Bg(gcmd)
     # symbolic runs
     ids = [c.id for c in good]
     nj = min(NPROC, len(ids))
@@ -180,10 +180,15 @@ def run_batch(tag, cases, cfg, opts=None, extra_prelude=''):
             reqs.append((c, 'k', inp, -1)); meta.append((r, c, p))
     if reqs:
         try: nres = nat.run_many(reqs)
-        except subprocess.TimeoutExpired: nres = [None] * len(reqs)
+        except subprocess.TimeoutExpired:
+            # find the request(s) that do not terminate instead of discarding the whole batch
+            nres = []
+            for rq in reqs:
+                try: nres += nat.run_many([rq], timeout=30)
+                except subprocess.TimeoutExpired: nres.append(None)
         for (r, c, p), nr in zip(meta, nres):
             if nr is None or 'crash' in nr:
-                out['val_mismatch'].append({'id': c.id, 'what': 'native crash', 'detail': str(nr)[:300]}); continue
+                out['val_mismatch'].append({'id': c.id, 'what': 'native crash' if nr is not None else 'native run does not terminate within 30 s', 'detail': str(nr)[:300], 'inp': p['inp']}); continue
             if p['status'] == 'raised':
                 if not nr['exc']: out['val_mismatch'].append({'id': c.id, 'what': 'encoder predicts exception, native returned'})
                 else: out['validated'] += 1
@@ -228,7 +233,7 @@ def run_batch(tag, cases, cfg, opts=None, extra_prelude=''):
             if conf is None and mv['kind'] in ('oob', 'lifetime', 'null'):
                 if asan is None:
                     aexe = os.path.join(d, 'drv_asan')
-                    pa = subprocess.run(['clang++-14'] + [f for f in cfg.flags() if f != '-O2'] + ['-O1', '-g', '-fsanitize=address', '-fno-omit-frame-pointer', '-o', aexe, drv], capture_output=True, text=True)
+                    pa = proc.run(['clang++-14'] + [f for f in cfg.flags() if f != '-O2'] + ['-O1', '-g', '-fsanitize=address', '-fno-omit-frame-pointer', '-o', aexe, drv])
                     asan = Native(aexe, good) if pa.returncode == 0 else False
                 if asan:
                     try:
